@@ -8,6 +8,12 @@ export CARGO_NET_OFFLINE=true CARGO_BUILD_JOBS=8
 git -C /repo worktree remove --force $WT 2>/dev/null
 git -C /repo worktree add -q --detach $WT HEAD || exit 2
 declare -A DEMO=(
+ [C20e_set_short_after_long]="-p yash-builtin --test c20e_set_mixed_option_styles"
+ [C18e_stop_counts_as_done]="-p yash-env -p yash-semantics c18e"
+ [C19e_pipe_emfile_leaks_reader]="-p yash-env -p yash-semantics c19e"
+ [C17e_redir_operand_not_alias_checked]="-p yash-syntax --test c17e_redir_operand_alias"
+ [C16e_assign_switch_local_scope]="-p yash-semantics --test c16e_assign_switch_in_function"
+ [C15e_wake_by_value_during_poll]="-p yash-executor --test c15e_wake_by_value_during_poll"
  [C14e_heredoc_rewind_by_chars]="-p yash-semantics c14e"
  [C13e_sigchld_handler_after_poll]="-p yash-env -p yash-semantics --test c13e_sigchld_race --test c13e_subshell_sigchld_race"
  [C12e_job_number_is_position]="-p yash-env -p yash-builtin -E binary(~c12e)"
